@@ -295,6 +295,11 @@ def fold_miter(ck: Checker, R: str):
             if inv:
                 probs.append(f'{inv[0]}: {desc}')
                 continue
+            unappliable = [(l, t, len(ops)) for l, (t, ops) in s['gates'].items() if not semantics.legal_arity(t, len(ops))]
+            if unappliable:
+                l, t, k = unappliable[0]
+                probs.append(f'gate {l} of the miter is {t} over {k} operand(s), which the operator cannot be applied to (evaluation raises): {desc}')
+                continue
             if len(s['inputs']) != len(linputs) or len(s['outputs']) != 1:
                 probs.append(f'miter has inputs {s["inputs"]} and outputs {s["outputs"]}: {desc}')
                 continue
@@ -357,6 +362,33 @@ def fold_repeated_connectors(ck: Checker, R: str):
                     break
     ck.check(not probs, R, mod, fn, f'right_connect with a repeated other_connectors entry is refused or wires every listed base input ({n} compositions)', '; '.join(probs[:2]),
              construct='connect_circuit(right_connect=True) with a repeated other_connectors entry')
+    # connector lists that cannot denote a composition: one attached input fed by two base gates (left), a base gate that is not
+    # an input fed from the attached circuit (right).  Refused -- or, if accepted, every listed pair must really be identified.
+    probs2 = []
+    m = 0
+    for (bspec, bouts), (ospec, oouts) in itertools.product(BASES, OTHERS[:2]):
+        binputs = [l for l, t, _ in bspec if t == 'INPUT']
+        bgates = [l for l, t, _ in bspec if t != 'INPUT']
+        oinputs = [l for l, t, _ in ospec if t == 'INPUT']
+        ogates = [l for l, t, _ in ospec if t != 'INPUT']
+        # left: this = two base nodes with different functions, other = the same attached input twice
+        m += 1
+        TC, OC = [binputs[0], bgates[0]], [oinputs[0], oinputs[0]]
+        base, other = M.new_circuit(bspec, bouts), M.new_circuit(ospec, oouts)
+        _, err = M.call(base, 'connect_circuit', other, list(TC), list(OC), right_connect=False, name='blk')
+        if not err:
+            probs2.append(f'connect_circuit(other, {TC}, {OC}) returns normally: the attached input {OC[0]} cannot be identified with both {TC[0]} and {TC[1]} (one pair is dropped silently)')
+        # right: a base gate that is not an input among this_connectors
+        m += 1
+        TC, OC = [bgates[0]], [ogates[0]]
+        base, other = M.new_circuit(bspec, bouts), M.new_circuit(ospec, oouts)
+        before = cm.snapshot(base)
+        _, err = M.call(base, 'connect_circuit', other, list(TC), list(OC), right_connect=True, name='blk')
+        if not err:
+            pr = cm.invariant_problems(base)
+            probs2.append(f'connect_circuit(other, {TC}, {OC}, right_connect=True) returns normally although {TC[0]} is not an input of the base circuit' + (f' ({pr[0]})' if pr else ''))
+    ck.check(not probs2, R, mod, fn, f'connector lists that denote no composition are refused ({m} calls: an attached input paired with two base gates; a non-input base gate fed from the attached circuit)', '; '.join(probs2[:2]),
+             construct='connect_circuit with connector lists that denote no composition')
 
 
 def fold_wrappers(ck: Checker, R: str):
